@@ -152,6 +152,13 @@ def standin(rep: Report):
             for col in range(0, width + 3):
                 cases.append(f"{head}{body}{' ' * col}y = 2\n")
             cases.append(f"{head}{body}{unit * max(0, depth - 1)} \ty = 2\n")
+    # implicit concatenation: every run of 2 and 3 literals over the literal kinds (CPython refuses to mix bytes and str, also when a piece is empty)
+    kinds = ["''", "'a'", "b''", "b'a'", "rb''", "r''", "u'x'", "f''", "f'{x}'", '""', 'B"c"']
+    for k2 in itertools.product(kinds, repeat=2):
+        cases.append("x = " + " ".join(k2) + "\n")
+        cases.append("y = (" + "\n     ".join(k2) + ")\n")
+    for k3 in itertools.product(kinds, repeat=3):
+        cases.append("f(" + " ".join(k3) + ")\n")
     cases += ["a = f'x } y'\n", "a = f\'\'\'\n   blech }\n\'\'\'\n", "f'{a}}'\n"]
     cases = list(dict.fromkeys(cases))
     ref = oracle.run("cpython", [{"src": c, "mode": "exec"} for c in cases])
